@@ -20,6 +20,14 @@ import (
 // one found at the end of the file (seed C07-14: `pos := *p.currentToken.Position`).
 func NilablePos(w *World, rels ...string) *report.RuleResult {
 	res := report.NewResult("nilable-pos")
+	// the parser's current token: a *Token field (currentToken) of a struct declared in one of the analysed packages,
+	// whichever struct holds it (the parser itself or a part it embeds)
+	parserPkgs := map[string]bool{}
+	for _, fn := range w.InPkgs(rels...) {
+		if fn.Pkg != nil {
+			parserPkgs[fn.Pkg.Pkg.Path()] = true
+		}
+	}
 	isNilableLoad := func(v ssa.Value) (string, bool) {
 		ld, ok := v.(*ssa.UnOp)
 		if !ok || ld.Op != token.MUL {
@@ -61,7 +69,7 @@ func NilablePos(w *World, rels ...string) *report.RuleResult {
 					if p, ok := o.Underlying().(*types.Pointer); ok {
 						o = p.Elem()
 					}
-					if n, ok := o.(*types.Named); ok && n.Obj().Name() == "Parser" {
+					if n, ok := o.(*types.Named); ok && n.Obj().Pkg() != nil && parserPkgs[n.Obj().Pkg().Path()] && strings.Contains(strings.ToLower(fieldName(tf.X.Type(), tf.Field)), "token") {
 						if _, isTok := tf.Type().Underlying().(*types.Pointer); isTok {
 							return "the position of the parser's current token (nil for the end-of-input token)", true
 						}
